@@ -1,6 +1,6 @@
 (* C12: the resolution filter, on arbitrary distance lists (hence for every shape). *)
 From Coq Require Import ZArith QArith Qround Bool List Lia Lqa.
-From GS Require Import model.TracerQ.
+From GS Require Import gen.GenTables model.TracerQ.
 Import ListNotations.
 Open Scope Q_scope.
 
@@ -14,7 +14,7 @@ Fixpoint all_but_last (P : Q -> Prop) (l : list Q) : Prop :=
 Lemma mask_len res : forall ds rem, length (mask_loop res rem ds) = length ds.
 Proof.
   induction ds as [|d ds IH]; intros rem; [reflexivity|]. cbn [mask_loop].
-  destruct ds as [|d2 ds]; [reflexivity|]. destruct (Qlt_le_dec (rem - d) (res / 10)); cbn [length]; now rewrite IH.
+  destruct ds as [|d2 ds]; [reflexivity|]. destruct (Qlt_le_dec (rem - d) (res / filter_tolerance_div)); cbn [length]; now rewrite IH.
 Qed.
 
 (* the heart: with acc the length travelled since the last kept sample and rem = res - acc *)
@@ -31,9 +31,9 @@ Proof.
   destruct ds as [|d2 ds].
   - (* the last distance: forced keep *)
     cbn [seg_loop qsum]. repeat split; try (constructor; [lra|constructor]); try lra; try discriminate.
-  - destruct (Qlt_le_dec (rem - d) (res / 10)) as [Hlt|Hge]; cbn [seg_loop].
+  - destruct (Qlt_le_dec (rem - d) (res / filter_tolerance_div)) as [Hlt|Hge]; cbn [seg_loop].
     + (* kept: reset *)
-      assert (H10 : res / 10 == (1 # 10) * res) by (field).
+      assert (H10 : res / filter_tolerance_div == (1 # 10) * res) by (unfold filter_tolerance_div; field).
       destruct (IH 0 res ltac:(lra) ltac:(lra) ltac:(lra) Hd' ltac:(discriminate)) as (A & B & C & D).
       cbn zeta in A, B, C, D.
       set (S := seg_loop 0 (mask_loop res res (d2 :: ds)) (d2 :: ds)) in *.
@@ -42,7 +42,7 @@ Proof.
       * destruct S as [|s S']; [congruence|]. cbn [all_but_last]. split; [rewrite H10 in Hlt; lra|exact B].
       * cbn [qsum]. rewrite C. cbn [qsum]. ring.
       * discriminate.
-    + assert (H10 : res / 10 == (1 # 10) * res) by (field).
+    + assert (H10 : res / filter_tolerance_div == (1 # 10) * res) by (unfold filter_tolerance_div; field).
       destruct (IH (acc + d) (rem - d) ltac:(lra) ltac:(lra) ltac:(rewrite H10 in Hge; lra) Hd' ltac:(discriminate)) as (A & B & C & D).
       cbn zeta in A, B, C, D. repeat split; auto. rewrite C. cbn [qsum]. ring.
 Qed.
@@ -69,7 +69,7 @@ Proof.
   assert (Hm : forall r, last (mask_loop res r (d2 :: ds)) false = true) by (intros r; apply IH; discriminate).
   assert (Hn : forall r, mask_loop res r (d2 :: ds) <> []).
   { intros r E. apply (f_equal (@length bool)) in E. rewrite mask_len in E. discriminate. }
-  destruct (Qlt_le_dec (rem - d) (res / 10)).
+  destruct (Qlt_le_dec (rem - d) (res / filter_tolerance_div)).
   - specialize (Hm res). specialize (Hn res). destruct (mask_loop res res (d2 :: ds)); [congruence|exact Hm].
   - specialize (Hm (rem - d)). specialize (Hn (rem - d)). destruct (mask_loop res (rem - d) (d2 :: ds)); [congruence|exact Hm].
 Qed.
@@ -109,7 +109,7 @@ Proof.
     { clear. induction ds as [|d ds IH]; intros acc rem Ha Hd; [constructor|].
       inversion Hd as [|? ? [Hd0 _] Hd']; subst. cbn [mask_loop]. destruct ds as [|d2 ds].
       - cbn. constructor; [lra|constructor].
-      - destruct (Qlt_le_dec (rem - d) (res / 10)); cbn [seg_loop].
+      - destruct (Qlt_le_dec (rem - d) (res / filter_tolerance_div)); cbn [seg_loop].
         + constructor; [lra|]. apply IH; [lra|exact Hd'].
         + apply IH; [lra|exact Hd']. }
     apply Hgen; [lra|exact Hd].
@@ -158,7 +158,7 @@ Theorem sample_spacing len res : 0 < res -> res <= len ->
   let n := inject_Z (nsegments len res) in
   0 < n /\ n * res <= 10 * len /\ 9 * len <= n * res.
 Proof.
-  intros Hres Hlen. cbn zeta. unfold nsegments.
+  intros Hres Hlen. cbn zeta. unfold nsegments, min_samples, oversampling.
   set (q := 10 * len / res).
   assert (Hq : q * res == 10 * len) by (unfold q; field; lra).
   assert (Hq10 : 10 <= q).
